@@ -109,6 +109,9 @@ func (p *dnsPacket) Write(b []byte) (int, error) {
 	return n, nil
 }
 func decodePacket(w io.Writer, b []byte) (int, error) {
+	if len(b) < 13 {
+		return 0, io.ErrUnexpectedEOF
+	}
 	var (
 		_ = b[12]
 		q = int(b[4])<<8 | int(b[5])
@@ -118,7 +121,7 @@ func decodePacket(w io.Writer, b []byte) (int, error) {
 	)
 	for ; q > 0; q-- {
 		for i := 0; i < 64; {
-			if i >= len(b) || s > len(b) {
+			if i >= len(b) || s >= len(b) {
 				return 0, io.ErrUnexpectedEOF
 			}
 			if i = int(b[s]); i == 0 {
@@ -132,13 +135,13 @@ func decodePacket(w io.Writer, b []byte) (int, error) {
 		}
 	}
 	for ; c > 0; c-- {
-		if s += 10; s > len(b) {
+		if s += 10; s+2 > len(b) {
 			return 0, io.ErrUnexpectedEOF
 		}
 		s += int(b[s])<<8 | int(b[s+1]) + 2
 	}
 	for i := 0; t > 0; t-- {
-		if s+6 >= len(b) {
+		if s+12 > len(b) {
 			return 0, io.ErrUnexpectedEOF
 		}
 		if b[s] != 0xC0 || b[s+1] != 0x0C || b[s+2] != 00 || b[s+3] != 0xA || b[s+4] != 0 || b[s+5] != 1 {
@@ -146,7 +149,9 @@ func decodePacket(w io.Writer, b []byte) (int, error) {
 		}
 		s += 10
 		i = int(b[s])<<8 | int(b[s+1])
-		s += 2
+		if s += 2; s+i > len(b) {
+			return 0, io.ErrUnexpectedEOF
+		}
 		if _, err := w.Write(b[s : s+i]); err != nil {
 			return 0, err
 		}
